@@ -63,7 +63,7 @@ var cfgKeys = []string{"cfg-a", "cfg-b"}
 func failedCoinsReceived(d *types.BlockDetail) map[string]int64 {
 	out := map[string]int64{}
 	for i, tx := range d.Block.Txs {
-		if string(tx.Execer) != "coins" || d.Receipts[i].Ty != types.ExecPack {
+		if realExec(tx) != "coins" || d.Receipts[i].Ty != types.ExecPack {
 			continue
 		}
 		var a cty.CoinsAction
@@ -138,6 +138,7 @@ func recvKey(addr string) string { return "LODB-coins-Addr:" + string(address.Fo
 
 type blockFacts struct {
 	repeat, self, failed, group, groupFailed, noStateChange bool
+	toDiffers                                               bool // some transaction's real recipient (GetRealToAddr) is not its To field
 	stateRecurs                                             bool // the block's state hash is the state hash of an earlier version
 	sharedLocal                                             bool // >= 2 ExecOk vlocal transactions of the block write the same local key / table row
 	vlocalOk                                                int  // number of ExecOk vlocal transactions
@@ -148,7 +149,7 @@ func factsOf(d *types.BlockDetail, parentState []byte, earlier map[string]bool) 
 	seen := map[string]int{}
 	writers := map[string]int{}
 	for i, tx := range d.Block.Txs {
-		if string(tx.Execer) == vlocalName && d.Receipts[i].Ty == types.ExecOk {
+		if realExec(tx) == vlocalName && d.Receipts[i].Ty == types.ExecOk {
 			f.vlocalOk++
 			mine := map[string]bool{}
 			for _, o := range vlocalOps(tx.Payload) {
@@ -161,6 +162,10 @@ func factsOf(d *types.BlockDetail, parentState []byte, earlier map[string]bool) 
 			}
 		}
 		from, to := tx.From(), tx.GetRealToAddr()
+		if to != tx.To {
+			f.toDiffers = true
+			lib.Class("tx:real_recipient_differs_from_To")
+		}
 		if from == to {
 			f.self = true
 			seen[from]++
@@ -169,7 +174,7 @@ func factsOf(d *types.BlockDetail, parentState []byte, earlier map[string]bool) 
 			seen[to]++
 		}
 		// a plain "none" (notary) transaction is never executed and always carries an ExecPack receipt: not a failure
-		if d.Receipts[i].Ty != types.ExecOk && string(tx.Execer) != "none" {
+		if d.Receipts[i].Ty != types.ExecOk && realExec(tx) != "none" {
 			f.failed = true
 			if tx.GroupCount > 0 {
 				f.groupFailed = true
@@ -190,7 +195,9 @@ func factsOf(d *types.BlockDetail, parentState []byte, earlier map[string]bool) 
 	return f
 }
 
-func (f blockFacts) nonTrivial() bool { return f.repeat || f.self || f.failed || f.sharedLocal }
+func (f blockFacts) nonTrivial() bool {
+	return f.repeat || f.self || f.failed || f.sharedLocal || f.toDiffers
+}
 
 type connected struct {
 	detail *types.BlockDetail
@@ -236,7 +243,7 @@ func runCase(c chainCase, tol tolerance) (fail string, nonTrivial bool) {
 		earlier[string(detail.Block.StateHash)] = true
 		for name, on := range map[string]bool{"block:repeated_address": f.repeat, "block:self_transfer": f.self, "block:failed_tx": f.failed,
 			"block:group": f.group, "block:failed_group": f.groupFailed, "block:no_state_change": f.noStateChange, "block:state_hash_recurs": f.stateRecurs, "block:vlocal_same_key_in_2+_txs": f.sharedLocal,
-			"block:vlocal_2+_txs": f.vlocalOk >= 2, "block:nontrivial": f.nonTrivial()} {
+			"block:vlocal_2+_txs": f.vlocalOk >= 2, "block:real_recipient_differs_from_To": f.toDiffers, "block:nontrivial": f.nonTrivial()} {
 			if on {
 				lib.Class(name)
 			}
@@ -487,6 +494,7 @@ func genSimple(t *rapid.T, free bool, label string) txSpec {
 		if s.Kind == "modify" && rapid.Bool().Draw(t, label+"bymanager") {
 			s.From = 1 // the super manager: succeeds
 		}
+		s.EmptyTo = rapid.IntRange(0, 2).Draw(t, label+"emptyTo") == 0 // legacy shape: no To field
 		s.Key = rapid.SampledFrom(cfgKeys).Draw(t, label+"key")
 		s.Op = rapid.SampledFrom([]string{"add", "add", "delete"}).Draw(t, label+"op")
 		s.Value = rapid.SampledFrom([]string{"v1", "v2"}).Draw(t, label+"value")
@@ -570,8 +578,23 @@ func genCase(t *rapid.T) chainCase {
 
 func TestPropLocalUndo(t *testing.T) {
 	defer lib.Flush()
+	if !useTitle("") {
+		t.Skip("this process hosts the para-chain title")
+	}
 	rapid.Check(t, func(t *rapid.T) {
 		check(t, "TestPropLocalUndo", genCase(t))
+	})
+}
+
+// TestPropLocalUndoPara is the same property on a para-chain configuration (title user.p.c14.), where every coins
+// transfer / transferToExec / withdraw has its recipient in the payload only. It needs its own process.
+func TestPropLocalUndoPara(t *testing.T) {
+	defer lib.Flush()
+	if !useTitle(paraTitle) {
+		t.Skip("this process hosts the main-chain title")
+	}
+	rapid.Check(t, func(t *rapid.T) {
+		check(t, "TestPropLocalUndoPara", genCase(t))
 	})
 }
 
@@ -580,6 +603,9 @@ func TestPropLocalUndo(t *testing.T) {
 // pinned runs a minimal hand-written case strictly. If it fails, the failure must be exactly the named finding (the
 // same case passes once only that signature is tolerated); then it is a KNOWN-FINDING when listed, a violation otherwise.
 func pinned(t *testing.T, test, id string, only tolerance, c chainCase, what string) {
+	if !useTitle("") {
+		t.Skip("this process hosts the para-chain title")
+	}
 	defer func() {
 		if r := recover(); r != nil {
 			if fe, ok := r.(fixtureErr); ok {
@@ -627,6 +653,10 @@ func TestKnown_MvccUnchangedStateHash(t *testing.T) {
 // data behind. Strict oracle (no tolerance): it must hold on a correct tree.
 func TestRegress_SameLocalKeyInOneBlock(t *testing.T) {
 	defer lib.Flush()
+	regress(t, "TestRegress_SameLocalKeyInOneBlock", "", sameLocalKeyCase)
+}
+
+var sameLocalKeyCase = func() chainCase {
 	c := chainCase{Cfg: variant{Quick: true}, Blocks: [][]txSpec{
 		{{Kind: "vlocal", From: 0, Fee: 1e5, Ops: []vop{{Op: "kset", K: "b", V: "z"}, {Op: "tput", K: "r2", V: "blue"}}}},
 		{
@@ -635,6 +665,14 @@ func TestRegress_SameLocalKeyInOneBlock(t *testing.T) {
 			{Kind: "vlocal", From: 0, Fee: 1e5, Ops: []vop{{Op: "kdel", K: "a"}, {Op: "tdel", K: "r1"}, {Op: "kdel", K: "b"}}},
 		},
 	}, RollbackTo: 1}
+	return c
+}()
+
+// regress runs a hand-written case strictly (no tolerance) on the chain title it is written for.
+func regress(t *testing.T, test, title string, c chainCase) {
+	if !useTitle(title) {
+		t.Skip("this process hosts the other chain title")
+	}
 	defer func() {
 		if r := recover(); r != nil {
 			if fe, ok := r.(fixtureErr); ok {
@@ -644,8 +682,31 @@ func TestRegress_SameLocalKeyInOneBlock(t *testing.T) {
 		}
 	}()
 	if msg, _ := runCase(c, tolerance{}); msg != "" {
-		lib.Violation(t, prop, "TestRegress_SameLocalKeyInOneBlock", c, "%s", msg)
+		lib.Violation(t, prop, test, c, "%s", msg)
 	}
+}
+
+// TestRegress_ManageWithoutTo: main chain, the one stock transaction shape whose real recipient is not its To field —
+// a manage transaction without a To field (ManageType.GetRealToAddr answers the manage contract address). Block 1 leaves
+// an ordinary manage transaction of the same sender indexed; block 2 holds the To-less one and is added and removed.
+func TestRegress_ManageWithoutTo(t *testing.T) {
+	defer lib.Flush()
+	regress(t, "TestRegress_ManageWithoutTo", "", chainCase{Cfg: variant{Quick: true}, Blocks: [][]txSpec{
+		{{Kind: "transfer", From: 0, To: 1, Amount: 1e9, Fee: 1e5}, {Kind: "modify", From: 1, Fee: 1e5, Key: "cfg-a", Op: "add", Value: "v1"}},
+		{{Kind: "modify", From: 1, Fee: 1e5, Key: "cfg-a", Op: "add", Value: "v2", EmptyTo: true}, {Kind: "apply", From: 0, Fee: 1e5, Key: "cfg-b", Op: "add", Value: "v1", EmptyTo: true}},
+	}, RollbackTo: 1})
+}
+
+// TestParaRecipientInPayload (own process, para title): block 1 funds two accounts; block 2 holds a transfer, a deposit
+// into an executor and a withdrawal, each with tx.To = the coins contract address and the recipient in the payload.
+func TestParaRecipientInPayload(t *testing.T) {
+	defer lib.Flush()
+	regress(t, "TestParaRecipientInPayload", paraTitle, chainCase{Cfg: variant{Quick: true}, Blocks: [][]txSpec{
+		{{Kind: "transfer", From: 0, To: 2, Amount: 1e9, Fee: 1e5}, {Kind: "transfer", From: 0, To: 3, Amount: 1e9, Fee: 1e5},
+			{Kind: "toexec", From: 2, Exec: "manage", Amount: 1e7, Fee: 1e5}},
+		{{Kind: "transfer", From: 2, To: 3, Amount: 1e5, Fee: 1e5}, {Kind: "toexec", From: 3, Exec: "manage", Amount: 1e7, Fee: 1e5},
+			{Kind: "withdraw", From: 2, Exec: "manage", Amount: 1e5, Fee: 1e5}, {Kind: "transfer", From: 3, To: 2, Amount: 1, Fee: 1e5}},
+	}, RollbackTo: 1})
 }
 
 func firstLine(s string) string {
